@@ -365,3 +365,85 @@ package gojq
 //@   requires -1 <= index && index < len(s.data) && -1 <= limit && limit < len(s.data)
 //@   modifies s.index, s.limit
 //@   ensures s.index == index && s.limit == limit
+
+// ---------------------------------------------------------------------------------------
+// C17 / C08: the query lexer (lexer.go)
+// ---------------------------------------------------------------------------------------
+
+//@ invariant-of (l *lexer) 0 <= l.offset && l.offset <= len(l.source)
+
+//@ func (l *lexer) peek() (b byte)
+//@   property C17
+//@   ensures l.offset == len(l.source) ==> b == 0
+//@   ensures l.offset < len(l.source) ==> b == l.source[l.offset]
+
+//@ func (l *lexer) skipComment() (r bool)
+//@   property C17
+//@   modifies l.offset
+//@   ensures l.offset >= old(l.offset)
+//@   ensures !r ==> l.offset < len(l.source)
+
+//@ func (l *lexer) next() (ch byte, iseof bool)
+//@   property C17
+//@   requires l.offset < len(l.source)
+//@   modifies l.offset
+//@   loop 1 invariant l.offset < len(l.source) && l.offset >= old(l.offset)
+//@   ensures l.offset > old(l.offset)
+//@   ensures !iseof ==> ch == l.source[l.offset-1]
+
+//@ func (l *lexer) scanIdent() (r int)
+//@   property C17
+//@   modifies l.offset
+//@   ensures r == l.offset && l.offset >= old(l.offset)
+
+//@ func (l *lexer) scanIdentOrModule() (index int, isModule bool)
+//@   property C17
+//@   modifies l.offset
+//@   ensures index == l.offset && l.offset >= old(l.offset)
+
+//@ func (l *lexer) scanNumber(state int) (r int)
+//@   property C17
+//@   requires 0 <= state && state <= 3 && l.offset >= 1
+//@   modifies l.offset
+//@   loop 1 invariant 0 <= state && state <= 3 && l.offset >= old(l.offset)
+//@   ensures (r == l.offset || r == -l.offset) && l.offset >= old(l.offset)
+
+// The token a ParseError reports is the source text ending at the reported offset: for named
+// tokens l.token, for single-byte tokens the byte itself (see (*lexer).Error).
+//@ pred tokenSpan(l *lexer, tok int) = ((tok == eof) ==> l.token == "") &&
+//@     ((tok != eof && tok >= 128) ==> len(l.token) <= l.offset && l.token == l.source[l.offset-len(l.token) : l.offset]) &&
+//@     ((tok != eof && tok < 128) ==> l.offset >= 1 && l.source[l.offset-1] == tok)
+
+//@ func (l *lexer) scanString(start int) (tok int, str string)
+//@   property C17
+//@   requires 0 <= start && start <= l.offset
+//@   requires l.inString ==> start == l.offset
+//@   requires !l.inString ==> start + 1 == l.offset
+//@   modifies l.offset, l.token, l.inString, HC_bool, HC_int
+//@   loop 2 invariant 1 <= j && i + j <= len(l.source) && 1 <= i
+//@   ensures tok >= 128 && tokenSpan(l, tok)
+
+//@ func (*lexer).Lex$1()
+//@   requires l != nil
+//@   modifies l.tokenType
+
+//@ func (l *lexer) Lex(lval *yySymType) (tokenType int)
+//@   property C17
+//@   requires lval != nil
+//@   requires forall k string :: {global(keywords)[k]} (k in global(keywords)) ==> global(keywords)[k] >= 128
+//@   modifies *
+//@   ensures tokenSpan(l, tokenType)
+
+//@ func isNumber(ch byte) (b bool)
+//@   ensures b == ('0' <= ch && ch <= '9')
+//@ func isIdent(ch byte, tail bool) (b bool)
+//@   ensures b == (('a' <= ch && ch <= 'z') || ('A' <= ch && ch <= 'Z') || ch == '_' || (tail && '0' <= ch && ch <= '9'))
+//@ func isWhite(ch byte) (b bool)
+//@   ensures b == (ch == '\t' || ch == '\n' || ch == '\r' || ch == ' ')
+//@ func isHex(ch byte) (b bool)
+//@   ensures b == (('a' <= ch && ch <= 'f') || ('A' <= ch && ch <= 'F') || ('0' <= ch && ch <= '9'))
+
+// unquote closure of scanString: reads the captured decode/controls, writes nothing the caller sees.
+// Assumed (not verified): depends on quoteAndEscape's counting precondition (see DESIGN §3 C08).
+//@ trusted (*lexer).scanString$1(src string, quote bool) (r string, err error)
+//@   requires quote || len(src) >= 2
